@@ -343,7 +343,11 @@ func Install() *Hook {
 }
 
 func (h *Hook) Open(ctx context.Context, filename string, flag int, permission os.FileMode) (*os.File, error) {
-	return h.real.Open(ctx, filename, flag, permission)
+	f, err := h.real.Open(ctx, filename, flag, permission)
+	if a := actorOf(ctx); a != nil && err == nil {
+		a.files = append(a.files, f)
+	}
+	return f, err
 }
 func (h *Hook) Close(file *os.File) error { return h.real.Close(file) }
 
@@ -363,12 +367,18 @@ func (h *Hook) park(ctx context.Context, at string) {
 }
 
 func (h *Hook) ReadAt(ctx context.Context, file *os.File, block []byte, offset int64) (int, error) {
+	if a := actorOf(ctx); a != nil {
+		return a.readAt(h, ctx, file, block, offset)
+	}
 	n, err := h.real.ReadAt(ctx, file, block, offset)
 	h.park(ctx, "haveBuf")
 	return n, err
 }
 
 func (h *Hook) WriteAt(ctx context.Context, file *os.File, block []byte, offset int64) (int, error) {
+	if a := actorOf(ctx); a != nil {
+		return a.writeAt(h, ctx, file, block, offset)
+	}
 	h.park(ctx, "restoring")
 	h.mu.Lock()
 	plan := h.Tear
